@@ -79,6 +79,14 @@ Definition maps_guarded (rows : list row) : bool :=
                     | None => true end) rows
   && Nat.eqb (List.length (filter (fun r => match guard_of (r_op r) with Some _ => is_init r | None => false end) rows)) 3.
 
+(* every invocation of a channel handler's sink callback (value delivery in handleChanMessage, close in handleChanClose
+   and closeChans) is made under that handler's mutex, and all three sites are there: a value in delivery and the closing
+   of the sink cannot overlap *)
+Definition sink_callbacks_locked (rows : list row) : bool :=
+  forallb (fun r => if String.eqb (r_op r) "sink-callback" then mem_s "hnd.lk" (r_locks r) else true) rows.
+Definition sink_callback_sites (rows : list row) : list string :=
+  map r_fn (filter (fun r => String.eqb (r_op r) "sink-callback") rows).
+
 (* lock-order graph: an edge held -> acquired for every acquisition made while holding another mutex *)
 Definition lock_name (op : string) : option string :=
   if String.eqb (substring 0 5 op) "lock:" then Some (substring 5 (String.length op - 5) op) else None.
